@@ -305,6 +305,83 @@ def probe_hook_calls(B):
     return sorted(set(calls))
 
 
+def _param_ty(t, ids, B, module):
+    d = ty(t, ids, B, module)
+
+    def clean(x):
+        """drop union members outside the subset (bytes, callables); None when nothing is left"""
+        if x["k"] == "unknown":
+            return None
+        if x["k"] == "union":
+            ms = [m for m in (clean(m) for m in x["ts"]) if m is not None]
+            if not ms:
+                return None
+            return ms[0] if len(ms) == 1 else {"k": "union", "ts": ms}
+        if x["k"] in ("opt", "list"):
+            i = clean(x["t"])
+            return None if i is None else {"k": x["k"], "t": i}
+        if x["k"] == "dict":
+            i = clean(x["t"])
+            return None if i is None else {"k": "dict", "kt": x["kt"], "t": i}
+        return x
+
+    return clean(d)
+
+
+def find_constructors(B, ids):
+    """library-side constructors: module-level `create_*` functions of the protocol modules and
+    `create_*` classmethods of model classes, with the declared types of their parameters"""
+    import inspect
+
+    out = []
+
+    def describe_fn(fn, owner, modname, qual):
+        module = sys.modules.get(modname)
+        try:
+            hints = typing.get_type_hints(fn)
+            sig = inspect.signature(fn)
+        except Exception:
+            return
+        params, ok = [], True
+        for name, prm in sig.parameters.items():
+            if name in ("self", "cls"):
+                continue
+            if prm.kind in (prm.VAR_POSITIONAL, prm.VAR_KEYWORD):
+                ok = False
+                break
+            t = _param_ty(hints[name], ids, B, module) if name in hints else None
+            if t is None:
+                if prm.default is prm.empty:
+                    ok = False
+                    break
+                continue  # an optional parameter outside the subset is left at its default
+            params.append({"name": name, "ty": t, "optional": prm.default is not prm.empty})
+        if ok:
+            d = {"module": modname, "qual": qual, "owner": owner, "params": params}
+            if qual.startswith("parse_"):
+                r = _param_ty(hints["return"], ids, B, module) if "return" in hints else None
+                refs_only = r is not None and (r["k"] == "ref" or (r["k"] == "union" and all(m["k"] == "ref" for m in r["ts"])))
+                if not (refs_only and len(params) == 1 and params[0]["ty"]["k"] == "dict"):
+                    return
+                d["returns"] = r
+            out.append(d)
+
+    for modname, module in sorted(sys.modules.items()):
+        if not modname.startswith("chuk_mcp.protocol.") or module is None:
+            continue
+        for name, fn in sorted(vars(module).items()):
+            if ((name.startswith("create_") or (name.startswith("parse_") and name != "parse_message")) and inspect.isfunction(fn) and fn.__module__ == modname
+                    and not inspect.iscoroutinefunction(fn)):
+                describe_fn(fn, None, modname, name)
+    for c, cid in ids.items():
+        if not c.__module__.startswith("chuk_mcp.protocol."):
+            continue
+        for name, m in sorted(vars(c).items()):
+            if name.startswith("create_") and isinstance(m, classmethod):
+                describe_fn(getattr(c, name), cid, c.__module__, f"{c.__name__}.{name}")
+    return out
+
+
 def main():
     B, errors = load_package()
     classes = all_classes(B)
@@ -314,6 +391,7 @@ def main():
         "import_errors": errors,
         "classes": [describe(c, ids, B) for c in classes],
         "hook_calls": probe_hook_calls(B),
+        "constructors": find_constructors(B, ids),
     }
     json.dump(doc, sys.stdout, sort_keys=True)
 
